@@ -136,6 +136,11 @@ def check_group_Ad(w, rep, name, G, tier):
                          lambda: (w.call(X, "to_Matrix"), w.call(w.elem(alg, yv), "to_Matrix"), w.call(w.call(X, "inverse"), "to_Matrix")))
     if okc:
         T, Wy, Ti = parts
+        if kind == "euler":
+            # the property excludes the +-1e-3 rad gimbal band: decide on the regular branch of from_Matrix
+            from .c07 import pole_conditions
+            from .liecommon import assign_ites
+            Ti = assign_ites(Ti, {c: False for c in pole_conditions(Ti)})
         with with_maxdeg(22 if kind == "mrp" else 14):
             C = cm.matmul(cm.matmul(T, Wy), Ti)
             lhs = cm.matmul(AD, yv)
